@@ -22,6 +22,9 @@ var c08Ops = func() []sop {
 	o = append(o, sop{Kind: "purge", MB: 0}, sop{Kind: "purge", MB: 1})
 	// a restart (file store: a new process, the id counter starts again; no-op on the memory store)
 	o = append(o, sop{Kind: "reopen"})
+	// marking a message seen changes no size and no count - and must not change what the limits do
+	// with the message later
+	o = append(o, sop{Kind: "seen", MB: 0, Ref: "oldest"}, sop{Kind: "seen", MB: 0, Ref: "newest"}, sop{Kind: "seen", MB: 1, Ref: "newest"})
 	return o
 }()
 
